@@ -992,6 +992,37 @@ func scanRetryLoop(repo string) (first, max int, text string) {
 				if loops != 1 {
 					fatal("Store.transaction: %d loops", loops)
 				}
+				// the busy test may live in a helper of the package called from transaction
+				// (e.g. isBusyError(err)): look one level down for the strings.Contains literal
+				if text == "" {
+					called := map[string]bool{}
+					ast.Inspect(d.Body, func(n ast.Node) bool {
+						if ce, ok := n.(*ast.CallExpr); ok {
+							if id, ok := ce.Fun.(*ast.Ident); ok {
+								called[id.Name] = true
+							}
+						}
+						return true
+					})
+					for _, f2 := range files {
+						for _, d2 := range f2.Decls {
+							fd2, ok := d2.(*ast.FuncDecl)
+							if !ok || fd2.Body == nil || fd2.Recv != nil || !called[fd2.Name.Name] {
+								continue
+							}
+							ast.Inspect(fd2.Body, func(n ast.Node) bool {
+								if ce, ok := n.(*ast.CallExpr); ok {
+									if sel, ok := ce.Fun.(*ast.SelectorExpr); ok && sel.Sel.Name == "Contains" && len(ce.Args) == 2 {
+										if bl, ok := ce.Args[1].(*ast.BasicLit); ok && bl.Kind == token.STRING {
+											text, _ = strconv.Unquote(bl.Value)
+										}
+									}
+								}
+								return true
+							})
+						}
+					}
+				}
 			}
 		}
 	}
